@@ -1,7 +1,33 @@
 package zygo
 
+import "fmt"
+
 func panicOn(err error) {
 	if err != nil {
 		panic(err)
 	}
+}
+
+// showForErr renders a value for an error text the way a script would print
+// it. Go's %#v lists the struct fields with their heap addresses, so the same
+// failing program produced a different error text on every run.
+func showForErr(x interface{}) string {
+	switch v := x.(type) {
+	case nil:
+		return "nil"
+	case Sexp:
+		return v.SexpString(nil)
+	case []Sexp:
+		s := "["
+		for i, e := range v {
+			if i > 0 {
+				s += " "
+			}
+			s += showForErr(e)
+		}
+		return s + "]"
+	case error:
+		return v.Error()
+	}
+	return fmt.Sprintf("%T", x)
 }
